@@ -53,6 +53,15 @@ Theorem C11_never_loses : forall d o, DInv d -> dq_maxlen d = None -> removing o
 Proof. exact deque_never_loses. Qed.
 Print Assumptions C11_never_loses.
 
+(* ... with multiplicities: every value occurs afterwards at least as often as before *)
+Theorem C11_never_loses_multiset : forall d o, DInv d -> dq_maxlen d = None -> removing o = false ->
+  match o with
+  | OSet _ _ => True
+  | _ => forall x, (count_occ Z.eq_dec (view d) x <= count_occ Z.eq_dec (view (fst (dq_step d o))) x)%nat
+  end.
+Proof. exact deque_never_loses_multiset. Qed.
+Print Assumptions C11_never_loses_multiset.
+
 (* concurrent producers and consumers (atomic operations, every interleaving): popped values in call order
    followed by the remaining contents = appended values in call order *)
 Theorem C11_exactly_once : forall os d, DInv d -> dq_maxlen d = None -> forallb fifo_op os = true ->
